@@ -172,16 +172,60 @@ type c01Step struct {
 }
 
 type c01Case struct {
-	Conf     c01ConfVariant
-	U        *c01Universe
-	Vers     [][]c01Ver // per slot
-	Final    []int      // per slot: version index in S, -1 = absent, -2 = slot unused
-	Steps    []c01Step
-	BOrder   []int   // slot order for B'
-	BSplits  []bool  // batch boundary after i-th update of B'
-	Classes  map[string]bool
-	NUpdates int
-	Mode     string
+	Conf    c01ConfVariant
+	U       *c01Universe
+	Vers    [][]c01Ver // per slot
+	Final   []int      // per slot: version index in S, -1 = absent, -2 = slot unused
+	Steps   []c01Step
+	BOrder  []int  // slot order for B'
+	BSplits []bool // batch boundary after i-th update of B'
+	Classes map[string]bool
+	// ReorderLast: slots whose last delivered update differs from the previous one only in the
+	// order of ProfileIDs.
+	ReorderLast map[int]bool
+	NUpdates    int
+	Mode        string
+}
+
+func (c *c01Case) lastIsReorder(slot int) {
+	if c.ReorderLast == nil {
+		c.ReorderLast = map[int]bool{}
+	}
+	c.ReorderLast[slot] = true
+	c.Classes["profile-reorder"] = true
+	c.Classes["profile-reorder-as-last-update"] = true
+}
+
+// classifyReorder sets "profile-reorder-conflicting": some endpoint's last update only reordered
+// its ProfileIDs and two of the reordered profiles have, in S, valid labelsToApply that give the
+// same key different values (and the endpoint's own labels do not define that key).
+func (c *c01Case) classifyReorder() {
+	finalLabels := func(profile string) map[string]string {
+		for i, s := range c.U.Slots {
+			if s.Name == "proflabels/"+profile && c.Final[i] >= 0 && !c.Vers[i][c.Final[i]].Invalid {
+				return c.Vers[i][c.Final[i]].Labels
+			}
+		}
+		return nil
+	}
+	for slot := range c.ReorderLast {
+		ver := c.Vers[slot][c.Final[slot]]
+		if ver.Invalid {
+			continue
+		}
+		for a := 0; a < len(ver.Profiles); a++ {
+			for b := a + 1; b < len(ver.Profiles); b++ {
+				la, lb := finalLabels(ver.Profiles[a]), finalLabels(ver.Profiles[b])
+				for k, va := range la {
+					if vb, ok := lb[k]; ok && vb != va {
+						if _, own := ver.Labels[k]; !own {
+							c.Classes["profile-reorder-conflicting"] = true
+						}
+					}
+				}
+			}
+		}
+	}
 }
 
 func (c *c01Case) verDesc(slot, ver int) string {
@@ -266,6 +310,21 @@ func c01GenCase(t *rapid.T, mode string) *c01Case {
 	c.Conf = c01ConfVariants[confIdx]
 	c.U = c01NewUniverse(c.Conf.SpoofingAllowed, ev.Known(c01SigBlockStale) && c.Conf.RouteSource == "CalicoIPAM", ev.Known(c01SigSameSubnetStale))
 	c.U.PreferVXLAN = focus == "vxlan"
+	// Reorder scenario (about a third of the policy-ish cases): see c01Universe.ReorderOn.
+	if (focus == "policy" || focus == "mixed") && rapid.IntRange(0, 1).Draw(t, "reorderScenario") == 1 {
+		ch := rapid.SampledFrom(c01ReorderChoices).Draw(t, "reorderKey")
+		c.U.ReorderOn, c.U.ReorderKey, c.U.ReorderV1, c.U.ReorderV2 = true, ch.Key, ch.V1, ch.V2
+		c.Classes["reorder-scenario"] = true
+	}
+	forced := map[string]bool{}
+	if c.U.ReorderOn {
+		for _, n := range []string{"wep/l1", "proflabels/p1", "proflabels/p2", "policy/g1"} {
+			forced[n] = true
+		}
+		if rapid.Bool().Draw(t, "reorderAlsoHEP") {
+			forced["hep/lh1"] = true
+		}
+	}
 	nslots := len(c.U.Slots)
 
 	// Which slots are in play, and their candidate versions.  A "focus" correlates the choice so that
@@ -298,7 +357,7 @@ func c01GenCase(t *rapid.T, mode string) *c01Case {
 	var used []int
 	for i, s := range c.U.Slots {
 		c.Final[i] = -2
-		if rapid.IntRange(0, 5).Draw(t, "use."+s.Name) < 6-weight(s.Class) {
+		if rapid.IntRange(0, 5).Draw(t, "use."+s.Name) < 6-weight(s.Class) && !forced[s.Name] {
 			continue
 		}
 		nver := rapid.IntRange(1, 3).Draw(t, "nver."+s.Name)
@@ -307,6 +366,37 @@ func c01GenCase(t *rapid.T, mode string) *c01Case {
 		}
 		used = append(used, i)
 	}
+	// Reorder twins: an endpoint version that lists >= 2 profiles may get a twin that differs only
+	// in the order of its ProfileIDs (reversed or rotated).
+	partner := map[[2]int]int{} // (slot, version) -> version that differs only by ProfileIDs order
+	for _, i := range used {
+		if !strings.HasPrefix(c.U.Slots[i].Class, "wep") && !strings.HasPrefix(c.U.Slots[i].Class, "hep") {
+			continue
+		}
+		n := len(c.Vers[i])
+		for v := 0; v < n; v++ {
+			ver := c.Vers[i][v]
+			if ver.Reorder == nil || len(ver.Profiles) < 2 {
+				continue
+			}
+			l := fmt.Sprintf("twin.%s.v%d", c.U.Slots[i].Name, v)
+			if !forced[c.U.Slots[i].Name] && rapid.IntRange(0, 2).Draw(t, l) != 2 {
+				continue
+			}
+			perm := append([]string(nil), ver.Profiles...)
+			if len(perm) > 2 && rapid.Bool().Draw(t, l+".rotate") {
+				perm = append(perm[1:], perm[0])
+			} else {
+				for a, b := 0, len(perm)-1; a < b; a, b = a+1, b-1 {
+					perm[a], perm[b] = perm[b], perm[a]
+				}
+			}
+			c.Vers[i] = append(c.Vers[i], ver.Reorder(perm))
+			partner[[2]int{i, v}] = len(c.Vers[i]) - 1
+			partner[[2]int{i, len(c.Vers[i]) - 1}] = v
+		}
+	}
+
 	// Target state S.
 	for _, i := range used {
 		nver := len(c.Vers[i])
@@ -318,6 +408,9 @@ func c01GenCase(t *rapid.T, mode string) *c01Case {
 		f := rapid.IntRange(-1, mult*nver-1).Draw(t, "final."+c.U.Slots[i].Name)
 		if f >= 0 {
 			f %= nver
+		}
+		if forced[c.U.Slots[i].Name] && f < 0 {
+			f = 0 // the scenario's slots are present in S
 		}
 		c.Final[i] = f
 	}
@@ -418,7 +511,7 @@ func c01GenCase(t *rapid.T, mode string) *c01Case {
 	}
 	for w := 0; w < nwalk; w++ {
 		l := fmt.Sprintf("walk[%d]", w)
-		move := rapid.SampledFrom([]string{"set", "set", "set", "toFinal", "dup", "revert", "blip", "teardown", "teardown"}).Draw(t, l+".move")
+		move := rapid.SampledFrom([]string{"set", "set", "set", "toFinal", "dup", "revert", "blip", "teardown", "teardown", "reorder"}).Draw(t, l+".move")
 		slot := used[rapid.IntRange(0, len(used)-1).Draw(t, l+".slot")]
 		nver := len(c.Vers[slot])
 		switch move {
@@ -456,6 +549,16 @@ func c01GenCase(t *rapid.T, mode string) *c01Case {
 			} else {
 				emit(slot, rapid.IntRange(0, nver-1).Draw(t, l+".ver"), "set")
 			}
+		case "reorder":
+			// Re-deliver the endpoint with only the order of its ProfileIDs changed.
+			if ver, ok := cur[slot]; ok {
+				if pv, has := partner[[2]int{slot, ver}]; has {
+					emit(slot, pv, "reorder")
+					c.Classes["profile-reorder"] = true
+					break
+				}
+			}
+			emit(slot, rapid.IntRange(-1, nver-1).Draw(t, l+".ver"), "set")
 		case "teardown":
 			// Delete (or invalidate) a referent while a live referrer still names it.
 			if refs := liveReferents(); len(refs) > 0 {
@@ -487,8 +590,34 @@ func c01GenCase(t *rapid.T, mode string) *c01Case {
 		need = perm
 	}
 	for _, slot := range need {
+		if pv, has := partner[[2]int{slot, c.Final[slot]}]; has && c.Final[slot] >= 0 {
+			curVer, ok := cur[slot]
+			if ok && curVer == pv {
+				emit(slot, c.Final[slot], "reorder")
+				c.lastIsReorder(slot)
+				continue
+			}
+			if forced[c.U.Slots[slot].Name] || rapid.Bool().Draw(t, "reorderLast."+c.U.Slots[slot].Name) {
+				emit(slot, pv, "converge")
+				emit(slot, c.Final[slot], "reorder")
+				c.lastIsReorder(slot)
+				continue
+			}
+		}
 		emit(slot, c.Final[slot], "converge")
 	}
+	// Scenario slots that were already converged: still finish with the (partner, final) pair.
+	for _, slot := range used {
+		if !forced[c.U.Slots[slot].Name] || c.ReorderLast[slot] || c.Final[slot] < 0 {
+			continue
+		}
+		if pv, has := partner[[2]int{slot, c.Final[slot]}]; has {
+			emit(slot, pv, "converge")
+			emit(slot, c.Final[slot], "reorder")
+			c.lastIsReorder(slot)
+		}
+	}
+	c.classifyReorder()
 	c.NUpdates = len(flat)
 
 	// Batching, flush points, in-sync position.
